@@ -8,7 +8,7 @@ TECHNIQUE = 'who-may-write + normal-form provenance tables for the offset state,
 EXPLANATION = ('Decides on the MIR of the current tree: the offset state of partitions and segments is written only by its confirmed owners and every assignment has its '
                'confirmed normal form (base = current+1|0, last = base+count-1, recovery from last index/last segment, new segment at end_offset+1); per-message offsets are '
                'base+k with k incremented once per stored message; a message dropped as duplicate reaches neither the push nor the counter; an all-duplicates batch returns '
-               'before any offset state is written; appends go through the partition write lock. Not decided: gap-freedom for every history x configuration (F8 in DESIGN.md is invisible here).')
+               'before any offset state is written; appends go through the partition write lock. Also: the roll-over to a new segment (the only fallible file creation of a send) is not reachable once an offset was assigned, and the batch header written to disk records base = first offset, last_offset_delta = last - first, which is what the index rebuilder re-derives offsets from. Not decided: gap-freedom for every history x configuration (F8 in DESIGN.md is invisible here).')
 ASSUMPTIONS = ['the forms in props/storage_forms.py are the pinned representation of the offset mechanism (a representation change must update the table)',
                '&mut Partition is only obtainable through the partition write guard (type system)']
 
